@@ -167,13 +167,6 @@ def oracle(case, real, spec, gate=True):
     if a != b:
         return {'case': case, 'what': 'rendering with auto_reload off (includes inlined) equals rendering with auto_reload on',
                 'expected': {'runtime': b}, 'observed': {'inline': a}, 'sources': sources(case)}
-    kept = real.get('kept')
-    if kept is not None:
-        g = G.static_graph(case)
-        bad = [t for t in kept if G.find_file(case, t) is not None and not G.on_cycle(g, t)]
-        if bad:
-            return {'case': case, 'what': 'a statically named include left in the prepared stream (auto_reload off) names a missing file or a file on an include cycle',
-                    'expected': {'inlined': bad}, 'observed': {'kept': kept}, 'sources': sources(case)}
     if spec is not None and a != spec:
         return {'case': case, 'what': 'both modes produce the content of the include targets in place (data visible, macros and match templates '
                                       'from that point on, fallback exactly when missing, not-found without fallback)',
@@ -268,9 +261,15 @@ def shard(arg):
             res.streams['prepared-static-includes'] = res.streams.get('prepared-static-includes', 0) + 1
             if real['kept']:
                 res.count('prepared:kept-static-include')
+            g = G.static_graph(case)
+            if any(G.find_file(case, t) is not None and not G.on_cycle(g, t) for t in real['kept']):
+                res.count('prepared:kept-include-neither-missing-nor-cyclic')
             if mk != real['kept']:
-                res.disagreements.append({'stream': 'prepared-static-includes', 'case': case, 'model': repr(mk),
-                                          'real': repr(real['kept']), 'sources': sources(case)})
+                # informational only: the property speaks about rendered output; a change of what
+                # _prepare inlines that leaves every output alone is not a violation
+                res.count('prepared:differs-from-model')
+                if len(res.notes) < 3:
+                    res.notes.append('prepared stream of %s keeps static includes %r, model %r' % (case['entry'], real['kept'], mk))
         if i < 2 and idx == 0:
             res.samples.append({'sources': sources(case), 'data': case['data'], 'inline': real['inline'], 'runtime': real['runtime']})
     return res
